@@ -1,5 +1,6 @@
 import SSEPyVerif.Driver.Tables
 import SSEPyVerif.Model.PHash
+import SSEPyVerif.Model.Cbc
 namespace SSEPy.Driver
 open SSEPy.Proto
 
@@ -22,6 +23,24 @@ def hashReq (t : Tables) : List String → String
       let xof : Bytes → Nat → Bytes := fun m n => t.get2 ("xof:" ++ name) m (toBE 4 n)
       showExcept showBytes (hashWrapperCall (isXof == "1") (t.get1 ("hash:" ++ name)) xof msg out)
     | _, _, _ => bad
+  | _ => bad
+
+/-- C14 requests (tables `aesenc`, `aesdec`: key2(key, block) ↦ block)
+    `aes new KL CL ML` / `aes enc KL CL ML KEY IV MSG` / `aes dec KL CL ML KEY CT` -/
+def aesReq (t : Tables) : List String → String
+  | ["new", kl, cl, ml] => match parseInt kl, parseInt cl, parseInt ml with
+    | some kl, some cl, some ml => showExcept (fun _ => "-") (AESxCBC.new kl cl ml)
+    | _, _, _ => bad
+  | ["enc", kl, cl, ml, key, iv, msg] =>
+    match parseInt kl, parseInt cl, parseInt ml, parseBytes key, parseBytes iv, parseBytes msg with
+    | some kl, some cl, some ml, some key, some iv, some msg =>
+      showExcept showBytes (do let s ← AESxCBC.new kl cl ml; s.encrypt (t.get2 "aesenc") key iv msg)
+    | _, _, _, _, _, _ => bad
+  | ["dec", kl, cl, ml, key, ct] =>
+    match parseInt kl, parseInt cl, parseInt ml, parseBytes key, parseBytes ct with
+    | some kl, some cl, some ml, some key, some ct =>
+      showExcept showBytes (do let s ← AESxCBC.new kl cl ml; s.decrypt (t.get2 "aesdec") key ct)
+    | _, _, _, _, _ => bad
   | _ => bad
 
 end SSEPy.Driver
